@@ -297,3 +297,17 @@ Definition unused_rule_indices (rules : list (ocond * okind)) (fs : list field) 
 
 Definition every_field_decided (rules : list (ocond * okind)) (fs : list field) : bool :=
   forallb (fun f => f_omit_docutils f || is_ok (optparse_kind rules f)) fs.
+
+(* validators that call setattr whenever they accept (so the stored object is always a new one) *)
+Definition coercing (e : vexpr) : bool :=
+  match e with
+  | VCustom n => str_eqb n n_check_extensions || str_eqb n n_check_fence_as_directive
+                 || str_eqb n n_check_url_schemes
+  | _ => false
+  end.
+
+(* every field whose container is mutated in place at run time gets a fresh container on copy *)
+Definition written_fields_coercing (fs : list field) (written : list str) : bool :=
+  forallb (fun n => match find_field n fs with Some f => coercing (f_val f) | None => false end) written.
+
+Definition erase_o (c : list (str * jv * origin)) : config := map (fun x => (fst (fst x), snd (fst x))) c.
